@@ -202,18 +202,18 @@ func (w *RW) observe() (*rwState, error) {
 		if p, err := sdk.ParseCoinNormalized(one.ForSale.Price); err == nil {
 			r.Price, r.Parsed = p, true
 		}
-		st.Sales[s.Name] = r
+		st.Sales[rnsCanon(s.Name)] = r
 	}
 	var ab rnstypes.QueryAllBidsResponse
 	if err := w.q("AllBids", &rnstypes.QueryAllBids{Pagination: rnsPg()}, &ab); err != nil {
 		return nil, fmt.Errorf("AllBids: %w", err)
 	}
 	for _, b := range ab.Bids {
-		r := rwBid{Bidder: b.Bidder, Name: b.Name, PriceStr: b.Price}
+		r := rwBid{Bidder: b.Bidder, Name: rnsCanon(b.Name), PriceStr: b.Price}
 		if p, err := sdk.ParseCoinsNormalized(b.Price); err == nil {
 			r.Price, r.Parsed = p, true
 		}
-		st.Bids[rnsBidKey(b.Bidder, b.Name)] = r
+		st.Bids[rnsBidKey(b.Bidder, rnsCanon(b.Name))] = r
 	}
 	for _, a := range w.c.Accs {
 		var lo rnstypes.QueryListOwnedNamesResponse
@@ -263,7 +263,18 @@ type rnsMsgInfo struct {
 	Coin   sdk.Coin // Bid / List amount
 }
 
-func rnsCanon(n string) string { return strings.ToLower(n) }
+// rnsCanon mirrors the chain's input normalisation of name strings: lower case, the last three characters are
+// the TLD when they spell one, and the single character in front of them is the separator whatever it is
+// (so "test-jkl", "test_jkl" and "testxjkl" all denote test.jkl, exactly as the handlers parse them).
+func rnsCanon(n string) string {
+	n = strings.ToLower(n)
+	for _, tld := range []string{"ibc", "jkl"} {
+		if len(n) > len(tld)+1 && strings.HasSuffix(n, tld) {
+			return n[:len(n)-len(tld)-1] + "." + tld
+		}
+	}
+	return n
+}
 
 func rnsInfo(msg sdk.Msg) rnsMsgInfo {
 	switch m := msg.(type) {
@@ -759,6 +770,16 @@ func (w *RW) judge(i int, msg sdk.Msg, res chain.TxResult, pre, post *rwState, d
 			continue
 		}
 		w.anomaly("listing-vanished", "h=%d %s by %s: listing %s (%+v) vanished", h, rnsDescribe(msg), w.name(signer), k, o)
+	}
+
+	// an accepted Delist withdraws the owner's consent to sell: the listing must be gone, otherwise a later
+	// purchase goes through a listing its owner has withdrawn
+	if in.Kind == "Delist" && res.OK() {
+		if o, had := pre.Sales[in.Target]; had {
+			if s, still := post.Sales[in.Target]; still && s.Creator == o.Creator {
+				w.fail("C08", "delist-accepted-listing-remains", "h=%d %s by %s returned code 0 but the listing of %s (%+v) is still there", h, rnsDescribe(msg), w.name(signer), in.Target, s)
+			}
+		}
 	}
 
 	// ---- balances and escrow, per message kind
